@@ -88,6 +88,37 @@ Definition standard_system_dimensions (num_boards : Z) : result (Z * Z) :=
          | Some h => let w := k / h in Ok (w * 12, h * 12)
          end.
 
+(* ---- the same loop with an integer counter and a step budget, so that it can be evaluated for board
+   counts whose square root is far too large for a unary counter.  [None] = budget exhausted.
+   Proofs/Board.v: whenever it answers, the answer is that of first_factor_down. *)
+Fixpoint first_factor_down_gas (k s : Z) (gas : nat) : option (option Z) :=
+  match gas with
+  | O => None
+  | S g => if s <=? 0 then Some None
+           else if k mod s =? 0 then Some (Some s) else first_factor_down_gas k (s - 1) g
+  end.
+
+Definition standard_system_dimensions_gas (gas : nat) (num_boards : Z) : result (Z * Z) :=
+  if num_boards =? 0 then Ok (0, 0)
+  else if num_boards =? 1 then Ok (8, 8)
+  else if negb (num_boards mod 3 =? 0) then Failed 0
+  else
+    let k := num_boards / 3 in
+    if k <? 0 then Failed 0
+    else match first_factor_down_gas k (float_isqrt k) gas with
+         | None => OutOfFuel
+         | Some None => OtherError
+         | Some (Some h) => let w := k / h in Ok (w * 12, h * 12)
+         end.
+
+(* ---- what a caller sees of the generator spinn5_eth_coords when it does not run it to the end:
+   next() n times / a loop left with break after n results: the first n results; `c in generator`. *)
+Definition eth_coords_take (n : nat) (width height root_x root_y : Z) : list (Z * Z) :=
+  firstn n (spinn5_eth_coords width height root_x root_y).
+
+Definition eth_coords_contains (c : Z * Z) (width height root_x root_y : Z) : bool :=
+  chip_mem c (spinn5_eth_coords width height root_x root_y).
+
 (* ---- helpers of the correspondence run: every output of the four chip functions over a whole
    machine, flattened to integers, and the position of the first difference with the
    implementation's list. *)
